@@ -930,12 +930,19 @@ def run_conn_case(rng, tmp, idx):
                         conn.cacheMinimize()
                         ra, rb = root.get('impA'), root.get('impB')
                         if ra is not None and rb is not None:
-                            ids = [ra._p_oid, ra.value._p_oid, rb._p_oid, rb.value._p_oid]
-                            if len(set(ids)) != 4:
+                            # (a mixed-up import can hand back trees of another shape: never assume it)
+                            ids = [getattr(x, '_p_oid', None) for x in
+                                   (ra, getattr(ra, 'value', None), rb, getattr(rb, 'value', None))]
+                            if None in ids:
+                                bad = bad or ('%s: after two imports in one transaction an imported tree no longer '
+                                              'has the shape that was exported (%r / %r)' % (
+                                                  kind, getattr(ra, 'value', None), getattr(rb, 'value', None)))
+                            elif len(set(ids)) != 4:
                                 bad = bad or ('%s: two imports in one transaction (exports of two databases with '
                                               'overlapping oids) gave their objects the same ids %s' % (
                                                   kind, [u64(x) for x in ids]))
-                            elif ra.value.value != 'local-%d' % n or rb.value.value != 'foreign':
+                            elif getattr(ra.value, 'value', None) != 'local-%d' % n or \
+                                    getattr(rb.value, 'value', None) != 'foreign':
                                 bad = bad or '%s: an imported tree reads back as the other one' % kind
                     steps.append('double-import')
                 elif r < 0.36:
